@@ -20,4 +20,12 @@ func init() {
 	})
 }
 
+func init() {
+	smtp.SetVerifConnAcceptedHook(func() {
+		if b := activeBackend.Load(); b != nil {
+			b.connAccepted()
+		}
+	})
+}
+
 func setActiveBackend(b *Backend) { activeBackend.Store(b) }
